@@ -46,6 +46,14 @@ package config
 // LoadFromViper merges the file under the caller's viper (command line, environment): every key of
 // the file is copied, then EVERY key of the caller's viper is set over it with the caller's value -
 // whatever that value is (an explicit false, 0 or "" on the command line still beats the file).
+// Load reads the file only after the command's flags are bound: what the file says never ends up in the flags
+// themselves (a later Load with the same command would read it back as command-line input)
+//@ func Load(cmd) (cfg, err)
+//@   property C18
+//@   observe bfl := call bindFlags
+//@   observe ric := call ReadInConfig
+//@   ensures [file-read-after-flags-bound] ric ==> ric.count == 1 && bfl.count == 1 && bfl.res0 == nil && bfl.seq < ric.seq
+
 //@ func LoadFromViper(inputViper) (cfg, err)
 //@   property C18
 //@   requires [input] inputViper != nil
